@@ -953,6 +953,32 @@ struct ArraysWorld : World {
 				log.ev("X_DETACH typed %d%s -> %d", h, fired ? " allocfail" : "", (int) ok);
 				if (!ok && !fired) fail("refused-valid", "typed_array detach refused without allocation fault");
 				outcome = ok;
+				// on the now private buffer: the C++ buffer methods that drop, copy or take over elements
+				content<Tracked> *c = ok ? TA[h]->_ref.instance() : 0; unsigned act = (unsigned) (op.c / 3) % 4;
+				if (c && !c->shared() && act) {
+					const size_t es = sizeof(Tracked);
+					if (act == 1) {
+						size_t k = MT[h].empty() ? 0 : (size_t) op.c % (MT[h].size() + 1); bool r; { Sut s; r = c->skip(k * es); }
+						log.ev("    buffer skip %zu of %zu -> %d", k, MT[h].size(), (int) r);
+						if (!r) fail("refused-valid", "buffer skip of %zu elements refused with %zu present", k, MT[h].size());
+						MT[h].erase(MT[h].begin(), MT[h].begin() + (ptrdiff_t) k);
+					} else if (h2 != h) {
+						bool ok2; { Sut s; ok2 = TA[h2]->detach(); }
+						content<Tracked> *f = ok2 ? TA[h2]->_ref.instance() : 0;
+						if (f && !f->shared() && f != c) {
+							bool fits = c->_size >= f->_used;
+							if (act == 2) {
+								bool r; { Sut s; r = c->copy(*f); }
+								log.ev("    buffer copy from %d (%zu elements into capacity %zu) -> %d", h2, MT[h2].size(), (size_t) c->_size / es, (int) r);
+								if (r) MT[h] = MT[h2]; else if (fits && !T.fired) fail("refused-valid", "buffer copy of %zu elements refused although they fit", MT[h2].size());
+							} else {
+								bool r; { Sut s; r = c->move(*f); }
+								log.ev("    buffer move from %d (%zu elements into capacity %zu) -> %d", h2, MT[h2].size(), (size_t) c->_size / es, (int) r);
+								if (r) { MT[h] = MT[h2]; MT[h2].clear(); } else if (fits) fail("refused-valid", "buffer move of %zu elements refused although they fit", MT[h2].size());
+							}
+						}
+					}
+				}
 				break;
 			}
 			case OP_X_MAP: {
